@@ -3,7 +3,7 @@
 // schedules (loop passes with resume(r) / cancel(r) / cleanup placed at every point), run on the real
 // classes with a real event::Loop, checked against a reference model + quiescence invariants.
 //
-//   harness enum <tag> <ops,comma-separated> <NR> <maxlen> <maxacts> <param> <part> <nparts>
+//   harness enum <tag> <ops,comma-separated> <NR> <maxlen> <maxacts> <param> <part> <nparts> [max total steps]
 //   harness replay "<replay text of a @VIOL line>" [ops-of-family-unused]
 //
 // Oracle = property C18 statement only:
@@ -22,6 +22,7 @@
 #include <tbox/coroutine/broadcast.hpp>
 #include <tbox/coroutine/condition.hpp>
 #include <tbox/event/loop.h>
+#include <tbox/event/common_loop.h>
 
 #include <chrono>
 #include <csignal>
@@ -68,8 +69,8 @@ static std::string run_str(const Prog &p, const std::vector<Act> &sc) {
 // shared memory between the supervising parent and the enumerating child (survives hang / crash of the child)
 struct Shm {
   volatile long cur_prog; volatile int phase; volatile int finished; volatile int capped;
-  volatile long programs, executions, transitions, states, traces, qchecks, viol_runs, cancels, cleanups_mid;
-  char text[1024];
+  volatile long loops, programs, executions, transitions, states, traces, qchecks, viol_runs, cancels, cleanups_mid;
+  Prog prog; int nsched; Act sched[2 * MAXTAIL + 8];   // the run being executed (formatted by the parent if the child dies)
 };
 static Shm *shm;
 enum Phase { PH_SETUP, PH_PASS, PH_ACTION, PH_CLEANUP, PH_TEARDOWN };
@@ -226,10 +227,16 @@ static std::string trace_str() {
 
 static unsigned alive_mask() { unsigned m = 0; for (int r = 0; r < g.nrt; r++) if (g.R[r].created && !g.R[r].finished) m |= 1u << r; return m; }
 
+// One real Loop per PROGRAM, one fresh Scheduler + primitives per RUN (program x main schedule). The loop is reused by the next
+// run of the same program only if its deferred-call queue is provably empty after the teardown pass; otherwise it is replaced.
+static event::Loop *g_loop = nullptr;
+static void drop_loop() { delete g_loop; g_loop = nullptr; }
+
 static RunOut run(const Prog &p, const std::vector<Act> &sched, bool want_text) {
   RunOut out;
   shm->phase = PH_SETUP; shm->executions++;
-  event::Loop *loop = event::Loop::New();
+  if (!g_loop) { g_loop = event::Loop::New(); shm->loops++; }
+  event::Loop *loop = g_loop;
   {
     Scheduler sch(loop); Channel<int> ch(sch); Mutex mu(sch); Semaphore sem(sch, p.param); Broadcast bc(sch);
     Condition<int> cond(sch, p.param ? Condition<int>::Logic::kAny : Condition<int>::Logic::kAll);
@@ -280,7 +287,8 @@ static RunOut run(const Prog &p, const std::vector<Act> &sched, bool want_text) 
     if (want_text || !g.viols.empty()) out.trace = trace_str();
     out.viols = g.viols;
   }
-  delete loop;
+  event::CommonLoop *cl = dynamic_cast<event::CommonLoop *>(loop);
+  if (!cl || !cl->run_next_func_queue_.empty() || !cl->run_in_loop_func_queue_.empty()) drop_loop();
   return out;
 }
 
@@ -295,6 +303,12 @@ static long g_samples = 0;
 typedef std::map<std::string, std::string> Inherited;
 static void report(const Prog &p, const std::vector<Act> &sched, RunOut &o, const Inherited &inh) {
   for (auto &v : o.viols) { auto it = inh.find(v.first); if (it != inh.end()) v.second = it->second; }
+  // a violation labelled with both kinds of main action: if it survives dropping the first action, only the second one is needed
+  for (auto &v : o.viols) if (v.second.find('+') != std::string::npos) {
+    std::vector<Act> s2; bool dropped = false; for (auto &a : sched) { if (!dropped && a.k != A_PASS) { dropped = true; continue; } s2.push_back(a); }
+    RunOut o2 = run(p, s2, false);
+    for (auto &w : o2.viols) if (w.first == v.first) v.second = w.second;
+  }
   if (!g_outcomes.count(o.outcome)) { printf("@OUTCOME %s%s\n", o.outcome.c_str(), o.viols.empty() ? "" : " [violating]"); fflush(stdout); }
   g_outcomes[o.outcome]++;
   if (o.viols.empty()) return;
@@ -311,7 +325,7 @@ static void report(const Prog &p, const std::vector<Act> &sched, RunOut &o, cons
 
 static void explore(const Prog &p, std::vector<Act> &sched, int acts_left, const Inherited &inh) {
   bool sample = g_samples < 3 && !sched.empty() && sched.back().k != A_PASS && (shm->executions % 97) == 5;
-  strncpy(shm->text, run_str(p, sched).c_str(), sizeof shm->text - 1);
+  shm->prog = p; shm->nsched = (int)std::min<size_t>(sched.size(), sizeof shm->sched / sizeof(Act)); memcpy((void *)shm->sched, sched.data(), shm->nsched * sizeof(Act));
   RunOut o = run(p, sched, sample);
   if (sample && o.trace.size() > 90) { g_samples++; printf("@SAMPLE %s  trace: %s\n", run_str(p, sched).c_str(), o.trace.c_str()); }
   report(p, sched, o, inh);
@@ -341,10 +355,12 @@ static int enum_main(int argc, char **argv) {
   std::string tag = argv[2]; std::vector<int> alpha;
   { std::string s = argv[3]; size_t i = 0; while (i <= s.size()) { size_t j = s.find(',', i); if (j == std::string::npos) j = s.size(); int o = op_by_name(s.substr(i, j - i)); if (o < 0) { fprintf(stderr, "bad op %s\n", s.substr(i, j - i).c_str()); return 2; } alpha.push_back(o); i = j + 1; } }
   int NR = atoi(argv[4]), maxlen = atoi(argv[5]), maxacts = atoi(argv[6]), param = atoi(argv[7]); long part = atol(argv[8]), nparts = atol(argv[9]);
+  int maxtotal = argc > 10 ? atoi(argv[10]) : NR * maxlen;   // optional bound on the total number of steps of a program
   if (maxlen > MAXLEN || NR > 3 || NR < 1) return 2;
   std::vector<Script> scripts = all_scripts(alpha, maxlen);
   long NS = (long)scripts.size(), total = 1; for (int i = 0; i < NR; i++) total *= NS;
   const char *e = getenv("VERIF_DEADLINE_S"); double deadline = now_s() + (e ? atof(e) : 600);
+  if (const char *at = getenv("C18_DEADLINE_AT")) { double left = atof(at) - (double)time(nullptr); if (now_s() + left < deadline) deadline = now_s() + left; }   // absolute deadline of the whole check
   g_info_only = getenv("C18_INFO_ONLY") != nullptr;
   shm = (Shm *)mmap(nullptr, sizeof(Shm), PROT_READ | PROT_WRITE, MAP_SHARED | MAP_ANONYMOUS, -1, 0);
   memset((void *)shm, 0, sizeof *shm);
@@ -359,8 +375,10 @@ static int enum_main(int argc, char **argv) {
       for (long idx = start; idx < total; idx += nparts) {
         if (now_s() > deadline) { printf("@CAP %s: deadline reached at program %ld of %ld (part %ld/%ld)\n", tag.c_str(), idx, total, part, nparts); shm->capped = 1; break; }
         shm->cur_prog = idx; alarm(20);
-        Prog p; p.nr = NR; p.param = param; long x = idx; for (int r = NR - 1; r >= 0; r--) { p.s[r] = scripts[x % NS]; x /= NS; }
+        Prog p; p.nr = NR; p.param = param; long x = idx; int tot = 0; for (int r = NR - 1; r >= 0; r--) { p.s[r] = scripts[x % NS]; x /= NS; tot += p.s[r].n; }
+        if (tot > maxtotal) continue;
         std::vector<Act> sched; explore(p, sched, maxacts, Inherited()); shm->programs++;
+        drop_loop();
       }
       alarm(0);
       for (auto &kv : g_sig_small) if (!kv.second.second.empty()) printf("%s sig=%s :: %s\n", VIOLTAG(), kv.first.c_str(), kv.second.second.c_str());
@@ -374,13 +392,13 @@ static int enum_main(int argc, char **argv) {
     if (WIFEXITED(st) && WEXITSTATUS(st) == 7) snprintf(how, sizeof how, "hang-in-%s", kPhase[shm->phase]);
     else if (WIFSIGNALED(st)) snprintf(how, sizeof how, "crash-signal%d-in-%s", WTERMSIG(st), kPhase[shm->phase]);
     else snprintf(how, sizeof how, "child-exit%d-in-%s", WEXITSTATUS(st), kPhase[shm->phase]);
-    if (++crash_sigs[how] <= 3) printf("%s sig=%s :: %s\n", VIOLTAG(), how, shm->text);
+    if (++crash_sigs[how] <= 3) printf("%s sig=%s :: %s\n", VIOLTAG(), how, run_str(shm->prog, std::vector<Act>(shm->sched, shm->sched + shm->nsched)).c_str());
     start = shm->cur_prog + nparts; shm->programs++;
     if (++restarts >= 25) { printf("@CAP %s: 25 hung/crashed programs in part %ld/%ld, enumeration stopped at program %ld of %ld\n", tag.c_str(), part, nparts, start, total); break; }
   }
-  printf("@STAT programs=%ld executions=%ld transitions=%ld states=%ld traces=%ld quiescent_checks=%ld violating_runs=%ld cancels=%ld midrun_cleanups=%ld\n",
-         shm->programs, shm->executions, shm->transitions, shm->states, shm->traces, shm->qchecks, shm->viol_runs, shm->cancels, shm->cleanups_mid);
-  printf("@INFO %s part %ld/%ld: scripts=%ld programs_total=%ld NR=%d maxlen=%d maxacts=%d param=%d restarts=%d\n", tag.c_str(), part, nparts, NS, total, NR, maxlen, maxacts, param, restarts);
+  printf("@STAT loops=%ld programs=%ld executions=%ld transitions=%ld states=%ld traces=%ld quiescent_checks=%ld violating_runs=%ld cancels=%ld midrun_cleanups=%ld\n",
+         shm->loops, shm->programs, shm->executions, shm->transitions, shm->states, shm->traces, shm->qchecks, shm->viol_runs, shm->cancels, shm->cleanups_mid);
+  printf("@INFO %s part %ld/%ld: scripts=%ld programs_total=%ld NR=%d maxlen=%d maxtotal=%d maxacts=%d param=%d restarts=%d\n", tag.c_str(), part, nparts, NS, total, NR, maxlen, maxtotal, maxacts, param, restarts);
   return 0;
 }
 
